@@ -81,14 +81,20 @@ def _int_lit(s):
     m = re.fullmatch(r'[A-Za-z_0-9:#]+=\{"v":(-?\d+)\}', s)
     if m:
         return int(m.group(1))
+    # (code, payload) tuples: the code is the first component
+    m = re.fullmatch(r"\((-?\d+),.*\)", s)
+    if m:
+        return int(m.group(1))
     return None
 
 
 def _variant_of(fb, s):
     """If the string is (a wrapper around) an enum variant path, return (enum key, variant name)."""
     s = s.strip()
-    m = re.fullmatch(r"(?:core::result::Result::Ok|core::option::Option::Some)\((.*)\)", s)
-    if m:
+    for _ in range(3):
+        m = re.fullmatch(r"(?:core::result::Result::Ok|core::option::Option::Some)\((.*)\)", s)
+        if not m:
+            break
         s = m.group(1).strip()
     m = re.fullmatch(r"([A-Za-z_0-9:#]+)(?:\(.*\)|\{.*\})?", s)
     if not m:
@@ -130,6 +136,8 @@ def int_tables(fb):
                 val = _int_lit(a["v"])
                 alts = a["p"].split(" | ")
                 vs = [_variant_of(fb, x) for x in alts]
+                if val is not None and all(v is None for v in vs) and a["p"] in ("core::option::Option::None", "_"):
+                    continue      # e.g. `None => (0, 0)` next to `Some(Type::X(len)) => (code, len)`
                 if val is None or any(v is None for v in vs):
                     ok = False
                     break
@@ -190,12 +198,18 @@ def table_agreement(ctx, rule, crates, min_pairs, exceptions=None):
         if miss and e["fn"] not in exceptions:
             ctx.violation(rule, "%s/variant-not-encoded/%s" % (rule, e["fn"]), "encoder %s has no code for variant(s) %s" % (e["fn"], miss), loc)
             continue
-        cands = [d for d in decs if d["enum"] == e["enum"]]
+        # same enum, or a sibling enum of the same name and variant names (lazy views often mirror the codec's enum)
+        cands = [d for d in decs if d["enum"] == e["enum"] or
+                 (d["enum"].split("::")[-1] == e["enum"].split("::")[-1] and set(d["map"].values()) <= set(e["map"]))]
         if not cands:
             ctx.ok(rule, name, "encoder only (no int decoder of this enum in the workspace)", loc)
             continue
-        best = max(cands, key=lambda d: len(set(d["map"]) & set(codes)))
-        same = [d for d in cands if len(set(d["map"]) & set(codes)) == len(set(best["map"]) & set(codes))]
+        # every decoder of the same coding family: knows all but at most one of the encoder's codes (the SAM text coding
+        # and the BAM binary coding of one enum share few or none)
+        same = [d for d in cands if len(set(d["map"]) & set(codes)) >= max(2, len(codes) - 1)]
+        if not same:
+            ctx.ok(rule, name, "encoder only (no decoder of the same coding family)", loc)
+            continue
         for d in same:
             npairs += 1
             ctx.saw_fn(fb.fns[d["fn"]])
